@@ -25,8 +25,12 @@ def handleU (st : St) (n : Nat) (toks : List String) : Result := Id.run do
   let t1 := (tw[1]?.bind String.toNat?).getD 0
   let env : Wit.Env := {
     writeOpsErr := faults.contains 'W'
-    prev := if faults.contains 'R' then .readErr else match pre with
-      | .absent => .notFound | .failed => .readErr | .val b => .found b
+    prev := if faults.contains 'R' then .readErr else
+      -- fault X: the write handle's read returned the damaged bytes `xread` in place of the stored checkpoint
+      match (if faults.contains 'X' then (get "xread").bind Opt.parse else none) with
+      | some (.val d) => .found d
+      | _ => match pre with
+        | .absent => .notFound | .failed => .readErr | .val b => .found b
     setErr := faults.contains 'S' }
   let cfgF := mkCfg st s false
   let cfgT := mkCfg st s true
@@ -91,6 +95,13 @@ def handleU (st : St) (n : Nat) (toks : List String) : Result := Id.run do
   if faults.contains 'R' && ierr == "none" then
     let r := fail st n "C07" "a failed read of the previous checkpoint was treated as 'no previous checkpoint' (update accepted)"
     st := r.st; outs := outs ++ r.out
+  if faults.contains 'X' && ierr == "none" then
+    match (get "xread").bind Opt.parse, linfo with
+    | some (.val d), some l =>
+      if (Wit.parse l d).isNone then
+        let r := fail st n "C07" "the store returned bytes that are not a checkpoint of this log and the update was accepted: an unreadable previous checkpoint was treated as 'no previous checkpoint'"
+        st := r.st; outs := outs ++ r.out
+    | _, _ => pure ()
   if faults != "" || icalls != "?" then
     if ierr == "none" then
       match iret with
